@@ -67,7 +67,8 @@ func observeLayout(pages []*boxes.PageBox) layoutObs {
 					}
 				}
 			}
-			for _, c := range b.Box().Children {
+			// AllChildren: the column groups of a table are boxes of the tree too (not in Children)
+			for _, c := range b.AllChildren() {
 				walk(c)
 			}
 		}
@@ -575,6 +576,15 @@ func runCase(ctx *engine.Ctx, s *spec) {
 	fmt.Fprintf(&key, "m:%q|%q|%q|%q|%q;", r.Title, r.Desc, r.Creator, r.Authors, r.Keywords)
 	if s.zoom != 1 {
 		ctx.Count("docs-with-zoom!=1", 1)
+	}
+	if s.tags["table-part"] && s.tags["background"] && s.tags["part-without-cell"] {
+		ctx.Count("docs-with-background-on-table-part-without-cell", 1)
+	}
+	if s.tags["clip-builds-no-path"] {
+		ctx.Count("docs-with-svg-clip-or-mask-building-no-path", 1)
+	}
+	if s.tags["no-anchor-at-all"] {
+		ctx.Count("docs-defining-no-anchor-at-all", 1)
 	}
 	ctx.Case(nontrivial, key.String())
 }
